@@ -539,12 +539,63 @@ func (rw *rewriter) selectStmt(s *ast.SelectStmt, lab *ast.LabeledStmt) []ast.St
 		cc.Body = rw.stmts(cc.Body)
 	}
 
+	// Polling form. The channel of every case is evaluated into a temporary; vsched.SelectPick names the case to run
+	// (the runtime would choose at random among several ready ones) and the temporaries of all other cases are set
+	// to nil, which disables them:
+	//
+	//	L: c0 := <ch0>; c1 := <ch1>; p := vsched.SelectPick(mask, c0, c1)
+	//	   if p != 0 { c0 = nil }; if p != 1 { c1 = nil }
+	//	   select { case v := <-c0: ...; case c1 <- x: ...; default: vsched.Poll(); goto L }
 	rw.nlabel++
-	poll := &ast.LabeledStmt{Label: ast.NewIdent(fmt.Sprintf("_vsel%d", rw.nlabel)), Stmt: s}
+	nsel := rw.nlabel
+	label := fmt.Sprintf("_vsel%d", nsel)
+
+	var (
+		pre      []ast.Stmt
+		args     []ast.Expr
+		disable  []ast.Stmt
+		sendMask uint64
+	)
+
+	pick := ast.NewIdent(fmt.Sprintf("_vpick%d", nsel))
+
+	for i, c := range s.Body.List {
+		cc := c.(*ast.CommClause)
+		tmp := ast.NewIdent(fmt.Sprintf("_vsc%d_%d", nsel, i))
+
+		var chx *ast.Expr
+
+		switch comm := cc.Comm.(type) {
+		case *ast.SendStmt:
+			chx = &comm.Chan
+			sendMask |= 1 << uint(i)
+		case *ast.ExprStmt:
+			chx = &comm.X.(*ast.UnaryExpr).X
+		case *ast.AssignStmt:
+			chx = &comm.Rhs[0].(*ast.UnaryExpr).X
+		default:
+			fail("%s: unsupported select case", rw.pos(cc))
+		}
+
+		pre = append(pre, &ast.AssignStmt{Lhs: []ast.Expr{tmp}, Tok: token.DEFINE, Rhs: []ast.Expr{*chx}})
+		*chx = ast.NewIdent(tmp.Name)
+		args = append(args, ast.NewIdent(tmp.Name))
+		disable = append(disable, &ast.IfStmt{
+			Cond: &ast.BinaryExpr{X: ast.NewIdent(pick.Name), Op: token.NEQ, Y: &ast.BasicLit{Kind: token.INT, Value: fmt.Sprint(i)}},
+			Body: &ast.BlockStmt{List: []ast.Stmt{&ast.AssignStmt{Lhs: []ast.Expr{ast.NewIdent(tmp.Name)}, Tok: token.ASSIGN, Rhs: []ast.Expr{ast.NewIdent("nil")}}}},
+		})
+	}
+
+	pickCall := rw.vcall(s.Body, "SelectPick", append([]ast.Expr{&ast.BasicLit{Kind: token.INT, Value: fmt.Sprint(sendMask)}}, args...)...)
+	pre = append(pre, &ast.AssignStmt{Lhs: []ast.Expr{pick}, Tok: token.DEFINE, Rhs: []ast.Expr{pickCall}})
+	pre = append(pre, disable...)
+
 	s.Body.List = append(s.Body.List, &ast.CommClause{Body: []ast.Stmt{
 		&ast.ExprStmt{X: rw.vcall(s.Body, "Poll")},
-		&ast.BranchStmt{Tok: token.GOTO, Label: ast.NewIdent(poll.Label.Name)},
+		&ast.BranchStmt{Tok: token.GOTO, Label: ast.NewIdent(label)},
 	}})
+
+	var poll ast.Stmt = &ast.LabeledStmt{Label: ast.NewIdent(label), Stmt: &ast.BlockStmt{List: append(pre, s)}}
 
 	dual := &ast.IfStmt{
 		Cond: &ast.UnaryExpr{Op: token.NOT, X: rw.vcall(s, "Active")},
